@@ -279,7 +279,11 @@ rfc1035NameUnpack(const char *buf, size_t sz, unsigned int *off, unsigned short 
                 RFC1035_UNPACK_DEBUG;
                 return 1;
             }
-            return rfc1035NameUnpack(buf, sz, &ptr, rdlength, name + no, ns - no, rdepth + 1);
+            const int rc = rfc1035NameUnpack(buf, sz, &ptr, rdlength, name + no, ns - no, rdepth + 1);
+            /* the pointer led to the root name: drop the dot appended after our last label */
+            if (rc == 0 && no > 0 && *(name + no) == '\0')
+                *(name + no - 1) = '\0';
+            return rc;
         } else if (c > RFC1035_MAXLABELSZ) {
             /*
              * "(The 10 and 01 combinations are reserved for future use.)"
